@@ -788,6 +788,7 @@ def install(reg):
         interp.ctx.prove("call torch.gather: index in [0, size)",
                          z3.ForAll([b_, l_], z3.Implies(z3.And(b_ >= 0, b_ < lift(index.shape[0]), l_ >= 0, l_ < lift(index.shape[1])), z3.And(v >= 0, v < n))),
                          kind="call-pre", assume_after=False)
+        interp.ctx.ghost.setdefault("c07_gather", []).append(dict(input=inp, index=index))
         r = Tensor(index.shape, lambda bi, li: inp.fn(bi, lift(index.fn(bi, li))), inp.kind)
         if isinstance(index, Tensor) and index.un is not None and index.un[1] == 1:
             u, ax, m = index.un
